@@ -538,6 +538,68 @@ fn map_outputs<S: Suite>(ctx: &Ctx, us: &[S::K]) {
     );
 }
 
+/// multi-scalar multiplication as a PRODUCER: lists in which contributions cancel - inside one bucket of one window pass
+/// (P and -P, or P, Q and -(P+Q), under scalars that share a window digit), across the whole sum, or to the identity at the
+/// end - through every entry point and window; the result must be on the curve and annihilated by r
+fn msm_outputs<C: RealCurve>(ctx: &Ctx) {
+    let name = C::NAME;
+    let c = C::curve();
+    let g = C::gen();
+    let mult = |k: u64| c.mul(&g, &BigUint::from(k));
+    let (p, q, t) = (mult(5), mult(11), mult(77));
+    let pq = c.add(&p, &q);
+    let lists: Vec<(&'static str, Vec<Pt<C::K>>)> = vec![
+        ("[P, -P, T]", vec![p.clone(), c.neg(&p), t.clone()]),
+        ("[T, P, -P]", vec![t.clone(), p.clone(), c.neg(&p)]),
+        ("[P, Q, -(P+Q), T]", vec![p.clone(), q.clone(), c.neg(&pq), t.clone()]),
+        ("[P, -P]", vec![p.clone(), c.neg(&p)]),
+        ("[P, P, -2P, T]", vec![p.clone(), p.clone(), c.neg(&c.add(&p, &p)), t.clone()]),
+        ("[P, O, -P, T]", vec![p.clone(), Pt::Inf, c.neg(&p), t.clone()]),
+    ];
+    let scal: Vec<(&'static str, [u64; 4])> = vec![
+        ("equal scalars (small)", [0x2b, 0, 0, 0]),
+        ("equal scalars (all words)", [0x1234_5678_9abc_def1, 0x0fed_cba9_8765_4321, 0x1111_2222_3333_4444, 0x0123_4567_89ab_cdef]),
+        ("equal scalars: one set bit in the top word", [0, 0, 0, 1 << 20]),
+    ];
+    let other: [u64; 4] = [0x77, 5, 0, 9];
+    let paths = ctx.tier.pick(vec![0usize, 1, 2, 4, 8], (0..=10).collect::<Vec<_>>());
+    let rad = [lists.len() as u64, scal.len() as u64, paths.len() as u64 + 2];
+    ctx.sweep(
+        &format!("{}.msm outputs", name),
+        crate::infra::space(&rad),
+        |i| {
+            let d = unrank(i, &rad);
+            json!({"group": name, "points": lists[d[0]].0, "scalars": scal[d[1]].0, "entry": if d[2] < paths.len() { format!("sum_of_products_pippinger, window {}", paths[d[2]] + 1) } else if d[2] == paths.len() { "sum_of_products".into() } else { "sum_of_products_precomp_256".to_string() }})
+        },
+        |i| {
+            let d = unrank(i, &rad);
+            let pts: Vec<C::Aff> = lists[d[0]].1.iter().map(|p| C::aff_of(p)).collect();
+            let n = pts.len();
+            // the cancelling entries share the scalar; the trailing T gets another one
+            let sc: Vec<&[u64; 4]> = (0..n).map(|j| if lists[d[0]].0.ends_with("T]") && j + 1 == n || lists[d[0]].0.starts_with("[T") && j == 0 { &other } else { &scal[d[1]].1 }).collect();
+            let got = guard(|| {
+                if d[2] < paths.len() {
+                    C::Aff::sum_of_products_pippinger(&pts, &sc, paths[d[2]] + 1)
+                } else if d[2] == paths.len() {
+                    C::Aff::sum_of_products(&pts, &sc)
+                } else {
+                    let mut pre = vec![C::Aff::zero(); 256 * n];
+                    for (j, p) in pts.iter().enumerate() {
+                        p.precomp_256(&mut pre[256 * j..256 * (j + 1)]);
+                    }
+                    C::Aff::sum_of_products_precomp_256(&pts, &sc, &pre)
+                }
+            })
+            .map_err(|m| Fail::new(format!("{}: multi-scalar multiplication panicked: {}", name, m)))?;
+            let pt = C::pt_of(&got);
+            if !C::raw_on_curve(&got) || !c.mul(&pt, r()).is_inf() {
+                return Err(Fail::new(format!("{}: multi-scalar multiplication over a list with cancelling contributions handed out a point outside the order-r subgroup", name)));
+            }
+            Ok("cancelling list")
+        },
+    );
+}
+
 /// every value that a checked decoder or a deserializer hands out is on the curve and annihilated by r
 fn decoder_outputs<C: crate::wire::WireCurve + SafeOps>(ctx: &Ctx, de_proj: fn(&[u8], bool) -> Option<C::Proj>, de_aff: fn(&[u8], bool) -> Option<C::Aff>)
 where
@@ -627,6 +689,8 @@ pub fn run(ctx: &Ctx) -> (&'static str, &'static str) {
         us1.push(Q1::new(alpha::rand_below(&mut rng, q)));
         us2.push(Q2::new(vec![Q1::new(alpha::rand_below(&mut rng, q)), Q1::new(alpha::rand_below(&mut rng, q))]));
     }
+    msm_outputs::<RG1>(ctx);
+    msm_outputs::<RG2>(ctx);
     map_outputs::<RG1>(ctx, &us1);
     map_outputs::<RG2>(ctx, &us2);
     ctx.assume("random(): an RNG stream that never yields a usable x (e.g. all zeros forever) does not terminate; this is documented environment behaviour and outside the property (horizon 100000 blocks)");
